@@ -186,6 +186,70 @@ def check_C09(ctx):
                 h.s.op(0, 'set_last_len', rng.randint(2, 12))
         ctx.case(('natural', k, thr, len(h.s.lines)))
         h.finish(SECTIONS_L3, 'C09 natural')
+    _c09_natural_default(ctx, 2 if ctx.tier == 'quick' else 12)
+
+
+def _c09_natural_default(ctx, n):
+    """Dynamic reordering at its DEFAULT threshold, triggered by the library itself (no forced
+    trigger, `_last_len` never touched): reordering is switched on in a small manager, then a
+    conjunction of equivalences between distant variables is built step by step, every
+    intermediate result held — the diagram passes 200 nodes and the request fires on its own,
+    repeatedly as the size doubles again.  Every held reference is compared on sampled assignments
+    before / after each step; exact state against the model at the end (the recorded sifting
+    schedules make it reproducible)."""
+    from lib import SampledTT
+    rng = ctx.rng
+    for k in range(n):
+        if ctx.time_left() < 10:
+            break
+        m = rng.randint(7, 9)
+        nv = 2 * m + rng.randint(0, 3)
+        names = [f'q{i:02d}' for i in range(nv)]
+        order = names[:]
+        rng.shuffle(order)
+        h = History(ctx, order, dyn=True)
+        h.s.op(0, 'configure', 1)
+        st = SampledTT(h.b, names, 96, rng)
+        lv = sorted(order[:2 * m], key=order.index)
+        acc = None
+        fired = 0
+        for i in range(m):
+            a = h.s.val(h.s.op(0, 'var', lv[i]))
+            h.hold(a)
+            b_ = h.s.val(h.s.op(0, 'var', lv[i + m]))
+            h.hold(b_)
+            before_len = h.b._last_len
+            e = h.s.val(h.s.op(0, 'apply', 'equiv', a, b_))
+            h.hold(e)
+            want = None
+            if acc is not None:
+                st.fresh()
+                want = st.of(acc) & st.of(e)
+                nxt = h.s.val(h.s.op(0, 'apply', 'and', acc, e))
+            else:
+                nxt = e
+            bad = []
+            if nxt is None:
+                bad.append('the conjunction raised: ' + h.s.answers[-1])
+            else:
+                h.hold(nxt)
+                if want is not None and st.fresh().of(nxt) != want:
+                    bad.append('result of the conjunction wrong')
+            if h.b._last_len is None:
+                bad.append('reordering no longer enabled')
+            elif before_len is not None and h.b._last_len != before_len:
+                fired += 1
+            bad += check_invariants(h.b, h.ledger())
+            ctx.evaluations += 1
+            if bad:
+                ctx.violation('dynamic reordering at the default threshold is visible', dict(
+                    problems=bad[:3], lines=list(h.s.lines), tags=dict(call='natural-default')))
+                break
+            acc = nxt
+        ctx.count('natural-default:reorderings', fired)
+        ctx.count('natural-default:final-nodes', len(h.b._succ))
+        ctx.case(('natural-default', k, nv, m, fired))
+        h.finish(SECTIONS_L3, 'C09 natural default')
 
 
 def _keys_by_name(b, text, pairs):
